@@ -186,7 +186,7 @@ def gen_variadic(full, rng, nrand):
     # ---- block parameter kind x argument kind x size equal / unequal
     for pk in BLK:
         for ak in BLK + ['i64', 'undef']:
-            for psz, asz in ((24, 24), (24, 16), (0, 0), (8, -8)):
+            for psz, asz in ((24, 24), (24, 16), (16, 24), (0, 0), (8, -8)):
                 for code in ('call', 'inline', 'jcall'):
                     for va in (0, 1):
                         hdr = 'proto pp %d 0 1 %s:%d ; func 0 0 0 ; %s' % (va, pk, psz, DECL)
@@ -239,7 +239,7 @@ def gen_variadic(full, rng, nrand):
     return cases
 
 
-def gen_function_level(rng, full):
+def gen_function_level(rng, full, tmpl=None):
     cases = []
     hdr = 'func 0 0 0 ; ' + DECL
     seps = ['insn mov r:ri r:ri', 'insn mov m:i64:0:ri:- r:ri', 'insn mov r:ri m:i64:0:ri:-', 'insn mov r:ri i:1',
@@ -257,6 +257,13 @@ def gen_function_level(rng, full):
                 for s2 in seps[:4]:
                     cases.append(('ovf', '%s ; %s ; %s ; %s ; insn %s L ; finish' % (hdr, pi, s, s2, br)))
             cases.append(('ovf', '%s ; %s ; insn %s L ; insn %s L ; finish' % (hdr, pi, br, br)))
+        # every fixed-arity opcode (a valid instance) as the separator between producer and branch:
+        # only register moves / stores of registers may stand there (round 2: a mutation that also
+        # skipped ldmov went unnoticed with the hand-picked separator list)
+        for name, ops in sorted((tmpl or {}).items()):
+            sep = 'insn %s %s' % (name, ' '.join(ops))
+            cases.append(('ovfsep', '%s ; reg f rf ; reg d rd ; reg ld rl ; insn addo r:ri r:ri r:ri ; %s ; insn %s L ; finish' % (
+                'func 0 0 0 ; reg i64 ri', sep, br)))
     # ret / jret rules
     for nres, rt in ((0, ''), (1, 'i64'), (2, 'i64 d')):
         h = 'func 0 %d %s 0 ; %s' % (nres, rt, DECL)
@@ -365,7 +372,7 @@ def build_cases(chk, rows, hard_names):
     cases = []
     cases += gen_fixed(rows, full, rng, 12 if not full else 120)
     cases += gen_variadic(full, rng, 2000 if not full else 20000)
-    cases += gen_function_level(rng, full)
+    cases += gen_function_level(rng, full, fixed_templates(rows))
     cases += gen_decls(rng, hard_names, full)
     return cases
 
